@@ -83,6 +83,9 @@ def expand(op, kind):
     t = op[0]
     if t == "ulist":
         return [("add1", unhx(k)) for k in op[1]]
+    if t == "ulist_nested":
+        ks = [unhx(k) for k in op[1]]
+        return [("add1", k) for k in ks[: op[2]] + ks[:1] + ks[op[2]:]]
     if t == "udict":
         return [("add", unhx(k), int(v)) for k, v in op[1]]
     if t == "add":
